@@ -1,8 +1,9 @@
 #!/usr/bin/env python3
 """markdown table of what the last run of every check covered (from /verif/evidence/*.json)"""
-import json,glob,os
+import json,glob,os,sys
 rows=[]
-for f in sorted(glob.glob('/verif/evidence/C*.json')):
+root=sys.argv[1] if len(sys.argv)>1 else '/verif/evidence'
+for f in sorted(glob.glob(root+'/C*.json')):
     e=json.load(open(f)); c=e['coverage']
     faults=sum(c.get('faults_fired',{}).values())
     rows.append((e['property_id'], e['tier'], c['evaluations'], c['distinct_nontrivial'], round(e['wall_s'],1), c.get('runs_per_hour',0), round(c.get('sim_time_ms',0)/3.6e6,1), len(c.get('faults_fired',{})), faults, len(c.get('known_findings_seen',[]))))
